@@ -25,3 +25,105 @@ package resolver
 //@ lemma lang_argValue(x string)
 //@   property C11 C02
 //@   ensures [equiv] matches(x, valueRegex) <==> inLang(x, reCat(reLit("!value"), rePlus(wsL()), serviceValueL()))
+
+// ---- C02: argument forms. The chain returns what the FIRST supporting strategy returns, and only ever asks a
+// strategy to resolve an argument it supports (C12: the strategies' unchecked type assertions are safe).
+
+//@ interface resolverStrategy.Supports(a any) bool pure
+//@ interface resolverStrategy.ResolveArg(a any) (e ArgExpr, err error) pure
+//@ interface argResolver.ResolveArg(a any) (e ArgExpr, err error) pure
+//@ interface aliaser.Alias(import_ string) string pure
+//@ interface tokenizer.Tokenize(pattern string) (tkns token.Tokens, err error) pure
+
+//@ func (*ArgResolver).ResolveArg
+//@   property C02 C12
+//@   requires [wired] forall j int :: 0 <= j && j < len(a.strategies) ==> a.strategies[j] != nil
+//@   ensures [first_supporting_strategy_decides] forall k int :: 0 <= k && k < len(a.strategies) && a.strategies[k].Supports(i)
+//@        && (forall q int :: 0 <= q && q < k ==> !a.strategies[q].Supports(i)) ==>
+//@        e == a.strategies[k].ResolveArg(i).0 && result.1 == a.strategies[k].ResolveArg(i).1
+//@   ensures [unsupported_is_an_error] (forall q int :: 0 <= q && q < len(a.strategies) ==> !a.strategies[q].Supports(i)) ==> result.1 != nil
+//@   loop 1
+//@     invariant [none_so_far] forall q int :: 0 <= q && q < $i ==> !a.strategies[q].Supports(i)
+
+// non-string primitive: keeps its YAML value; the emitted code is the Go literal of that value; no dependencies
+//@ func (NonStringPrimitiveResolver).Supports
+//@   property C02
+//@   ensures [iff] result <==> (!isStr(i) && types.IsPrimitive(i))
+//@ func (NonStringPrimitiveResolver).ResolveArg
+//@   property C02 C06 C07
+//@   ensures [raw_kept_no_deps] result.1 == nil && e.Raw == i && len(e.DependsOnParams) == 0 && len(e.DependsOnServices) == 0 && len(e.DependsOnTags) == 0
+
+// "$gontainer" (fixed id): the container itself; no dependencies
+//@ func (FixedValueResolver).Supports
+//@   property C02
+//@   ensures [iff] result <==> (isStr(a) && strOf(a) == f.id)
+//@ func (FixedValueResolver).ResolveArg
+//@   property C02 C06 C07
+//@   ensures [value_no_deps] result.1 == nil && result.0.Code == "dependencyValue(" + f.value + ")" && result.0.Raw == a
+//@        && len(result.0.DependsOnParams) == 0 && len(result.0.DependsOnServices) == 0 && len(result.0.DependsOnTags) == 0
+
+// "@name": the named service; the dependency list names exactly the service the emitted code asks for
+//@ func (ServiceResolver).Supports
+//@   property C02
+//@   ensures [iff] result <==> (isStr(i) && hasPrefix(strOf(i), "@"))
+//@ func (ServiceResolver).ResolveArg
+//@   property C02 C06 C07 C12
+//@   requires [supported] isStr(i)
+//@   ensures [malformed_is_an_error] (result.1 != nil) <==> !matches(strOf(i), serviceRegex)
+//@   ensures [depends_on_exactly_the_named_service] result.1 == nil ==> len(result.0.DependsOnServices) == 1 && strOf(i) == "@" + result.0.DependsOnServices[0]
+//@        && len(result.0.DependsOnParams) == 0 && len(result.0.DependsOnTags) == 0 && result.0.Raw == i
+
+// "!tagged t": the services tagged t; the dependency list names exactly that tag
+//@ func (TaggedResolver).Supports
+//@   property C02 C04
+//@   ensures [iff] result <==> (isStr(p) && matches(strOf(p), taggedPrefixRegex))
+//@ func (TaggedResolver).ResolveArg
+//@   property C02 C04 C07 C12
+//@   requires [supported] isStr(i)
+//@   ensures [malformed_is_an_error] (result.1 != nil) <==> !matches(strOf(i), taggedRegex)
+//@   ensures [depends_on_exactly_the_named_tag] result.1 == nil ==> len(result.0.DependsOnTags) == 1 && hasSuffix(strOf(i), result.0.DependsOnTags[0])
+//@        && inLang(result.0.DependsOnTags[0], yamlTokenL())
+//@        && len(result.0.DependsOnParams) == 0 && len(result.0.DependsOnServices) == 0
+
+// "!value expr": a Go expression; no dependencies
+//@ func (ValueResolver).Supports
+//@   property C02
+//@   ensures [iff] result <==> (isStr(p) && matches(strOf(p), valuePrefixRegex))
+//@ func (ValueResolver).ResolveArg
+//@   property C02 C12
+//@   requires [supported] isStr(p)
+//@   requires [wired] v.aliaser != nil
+//@   ensures [malformed_is_an_error] (result.1 != nil) <==> !matches(strOf(p), valueRegex)
+//@   ensures [no_deps] len(result.0.DependsOnParams) == 0 && len(result.0.DependsOnServices) == 0 && len(result.0.DependsOnTags) == 0
+
+// any other string: a parameter pattern
+//@ func (PatternResolver).Supports
+//@   property C02 C03
+//@   ensures [iff] result <==> isStr(i)
+
+// parameters may depend on parameters only
+//@ func (ParamResolver).ResolveParam
+//@   property C03 C06 C07 C12
+//@   requires [wired] p.resolver != nil
+//@   ensures [no_service_or_tag_deps] result.1 == nil ==> len(p.resolver.ResolveArg(i).0.DependsOnServices) == 0 && len(p.resolver.ResolveArg(i).0.DependsOnTags) == 0
+//@        && result.0.DependsOnParams == p.resolver.ResolveArg(i).0.DependsOnParams && result.0.Code == p.resolver.ResolveArg(i).0.Code
+//@   ensures [resolver_error_kept] p.resolver.ResolveArg(i).1 != nil ==> result.1 != nil
+
+// a pattern depends on exactly the parameters its tokens reference, in token order
+//@ func (PatternResolver).ResolveArg
+//@   property C03 C06 C07 C12
+//@   requires [supported] isStr(i)
+//@   requires [wired] p.tokenizer != nil
+//@   ensures [tokenizer_error_kept] p.tokenizer.Tokenize(strOf(i)).1 != nil ==> result.1 != nil
+//@   ensures [every_referenced_param_is_a_dependency] result.1 == nil ==>
+//@        (forall t int, m int :: 0 <= t && t < len(p.tokenizer.Tokenize(strOf(i)).0) && 0 <= m && m < len(p.tokenizer.Tokenize(strOf(i)).0[t].DependsOn) ==>
+//@            (exists q int :: 0 <= q && q < len(e.DependsOnParams) && e.DependsOnParams[q] == p.tokenizer.Tokenize(strOf(i)).0[t].DependsOn[m]))
+//@   ensures [no_other_dependencies] result.1 == nil ==> len(e.DependsOnServices) == 0 && len(e.DependsOnTags) == 0
+//@        && (forall q int :: 0 <= q && q < len(e.DependsOnParams) ==>
+//@            (exists t int, m int :: 0 <= t && t < len(p.tokenizer.Tokenize(strOf(i)).0) && 0 <= m && m < len(p.tokenizer.Tokenize(strOf(i)).0[t].DependsOn)
+//@               && e.DependsOnParams[q] == p.tokenizer.Tokenize(strOf(i)).0[t].DependsOn[m]))
+//@   loop 1
+//@     invariant [complete] forall t int, m int :: 0 <= t && t < $i && 0 <= m && m < len(tkns[t].DependsOn) ==>
+//@            (exists q int :: 0 <= q && q < len(dependsOn) && dependsOn[q] == tkns[t].DependsOn[m])
+//@     invariant [sound] forall q int :: 0 <= q && q < len(dependsOn) ==>
+//@            (exists t int, m int :: 0 <= t && t < $i && 0 <= m && m < len(tkns[t].DependsOn) && dependsOn[q] == tkns[t].DependsOn[m])
